@@ -226,9 +226,11 @@ class Rig:
                 # a real file (connection pool of several connections, WAL) instead of one shared :memory: connection
                 import tempfile
 
-                base = os.environ.get("VERIF_TMP") or os.path.join(bootstrap.VERIF, "out")
+                # scratch database: memory-backed file system when there is one (removed in close())
+                base = "/dev/shm" if os.access("/dev/shm", os.W_OK) else (
+                    os.environ.get("VERIF_TMP") or os.path.join(bootstrap.VERIF, "out"))
                 os.makedirs(base, exist_ok=True)
-                self._tmpdir = tempfile.mkdtemp(prefix="sqlite-", dir=base)
+                self._tmpdir = tempfile.mkdtemp(prefix="verif-sqlite-", dir=base)
                 self.file_db = os.path.join(self._tmpdir, "nostr.sqlite3")
             url = "sqlite+aiosqlite:///" + (self.file_db or ":memory:")
             opts["sqlalchemy.url"] = url
